@@ -722,7 +722,7 @@ class Impl:
                 return 'LOST %d' % n
         if isinstance(e, err.RemoteError):
             if 'values' in e.__dict__:
-                vals = list(e.values) if isinstance(e.values, (list, tuple)) else ['<%s>' % type(e.values).__name__]
+                vals = _clip(e.values, 64) if isinstance(e.values, (list, tuple)) else ['<%s>' % type(e.values).__name__]
                 return ' '.join(['RE', _hex_or_q(e.errName), _hex_or_q(e.message)] + [tok(v) for v in vals])
             return 'SE'        # locally generated RemoteError: class only, its wording is not the property's
         if isinstance(e, err.TimeOut):
@@ -787,6 +787,11 @@ class Impl:
                                             ','.join('%d:%d' % t for t in ts), ','.join(faults))
 
 
+def _clip(vals, n=32):
+    """A list a leak lets grow without bound is looked at up to its first n items and its length."""
+    return list(vals) if len(vals) <= n else list(vals[:n]) + ['<%d values in all>' % len(vals)]
+
+
 def freeze(kind, val):
     """What a delivered result looks like now: the value, or the name / message / values of a RemoteError."""
     if kind == 'cb':
@@ -795,7 +800,7 @@ def freeze(kind, val):
     if type(e).__name__ == 'RemoteError':
         vals = getattr(e, 'values', None)
         return json.dumps([_norm(getattr(e, 'errName', None)), _norm(getattr(e, 'message', None)),
-                           _norm(list(vals) if isinstance(vals, (list, tuple)) else vals)])
+                           _norm(_clip(vals) if isinstance(vals, (list, tuple)) else vals)])
     return None
 
 
@@ -917,9 +922,10 @@ class Monitor:
         if e.errName != name:
             self.bad('remoteerror-name', 'call %d: RemoteError name %r, reply said %r' % (did, e.errName, name))
         vals = body or []
-        if tok_deep(list(getattr(e, 'values', ['<no values attribute>']))) != tok_deep(vals):
-            self.bad('remoteerror-values', 'call %d: RemoteError values %r, reply carried %r'
-                     % (did, getattr(e, 'values', None), vals))
+        got = getattr(e, 'values', ['<no values attribute>'])
+        got = _clip(got) if isinstance(got, (list, tuple)) else [got]
+        if tok_deep(got) != tok_deep(vals):
+            self.bad('remoteerror-values', 'call %d: RemoteError values %r, reply carried %r' % (did, got, vals))
         if vals and sig[:1] == 's':
             if e.message != vals[0]:
                 self.bad('remoteerror-message', 'call %d: RemoteError message %r, reply said %r'
